@@ -289,6 +289,55 @@ def render_variant_text(rng, lines, eol, trailing):
     return s
 
 
+def exec_cli_split(base, lines, chunks, styles, fmt, ordered, cnt):
+    """`cgt-tool report` on the concatenation and on the same lines distributed over files; returns violations."""
+    from ..clidrv import Sandbox, ALL_YEARS_TOML
+    viols = []
+    with Sandbox(ALL_YEARS_TOML) as sb:
+        sb.write("all.cgt", "\n".join(lines) + "\n")
+        names = []
+        for i, (c, st) in enumerate(zip(chunks, styles)):
+            eol = "\r\n" if st.startswith("CRLF") else "\n"
+            trailing = "no-final-newline" not in st
+            sb.write(f"part{i}.cgt", render_variant_text(None, c, eol, trailing).encode())
+            names.append(f"part{i}.cgt")
+        ra = sb.run(["report", "all.cgt", "--format", fmt])
+        rb = sb.run(["report"] + names + ["--format", fmt])
+    case = {"op": "cli-split", "txs": base, "lines": lines, "chunks": chunks, "styles": styles, "fmt": fmt, "ordered": ordered}
+    if ra["timeout"] or rb["timeout"]:
+        cnt["cli_timeouts(inconclusive)"] += 1
+        return viols
+    if (ra["exit"] == 0) != (rb["exit"] == 0):
+        viols.append({"clause": "cli-accept-reject-differs", "signature": "cli-accept-reject-differs",
+                      "detail": f"whole: exit {ra['exit']} {ra['stderr'][:150]} | split ({styles}): exit {rb['exit']} {rb['stderr'][:150]}",
+                      "case": case})
+        return viols
+    if ra["exit"] != 0:
+        return viols
+    if fmt == "json":
+        ja, jb = json.loads(ra["stdout"]), json.loads(rb["stdout"])
+        ja.pop("transactions", None)
+        jb.pop("transactions", None)
+        same = ja == jb
+        if not same and not ordered:
+            # unordered distribution: per-sell-line legs may regroup (F16); compare merged view
+            same = json_views_close(merged_json_view(ja), merged_json_view(jb))
+            if same:
+                cnt["cli_f16_regroupings"] += 1
+    else:
+        ta = ra["stdout"].decode().split("# TRANSACTIONS")[0]
+        tb = rb["stdout"].decode().split("# TRANSACTIONS")[0]
+        same = ta == tb
+        if not same and not ordered:
+            same = True  # plain text of regrouped legs is compared through the JSON path only
+            cnt["cli_plain_unordered_not_compared"] += 1
+    if not same:
+        viols.append({"clause": "cli-split-differs", "signature": "cli-split-differs:" + ("ordered" if ordered else "distributed"),
+                      "detail": f"report of {len(chunks)} files ({styles}) differs from report of the concatenation ({fmt})",
+                      "case": case})
+    return viols
+
+
 def run_cli(desc):
     """Partitions of the line sequence into 1..5 files (in order => byte-identical report expected;
     in any distribution => same figures), incl. CRLF files and files without a final newline."""
@@ -311,57 +360,20 @@ def run_cli(desc):
             for ln in lines:
                 rng.choice(chunks).append(ln)
             chunks = [c for c in chunks if c] or [lines]
-        with Sandbox(ALL_YEARS_TOML) as sb:
-            sb.write("all.cgt", "\n".join(lines) + "\n")
-            names = []
-            styles = []
-            for i, c in enumerate(chunks):
-                eol = rng.choice(["\n", "\n", "\r\n"])
-                trailing = rng.random() < 0.5
-                styles.append(("CRLF" if eol == "\r\n" else "LF") + ("" if trailing else ",no-final-newline"))
-                sb.write(f"part{i}.cgt", render_variant_text(rng, c, eol, trailing).encode())
-                names.append(f"part{i}.cgt")
-            fmt = rng.choice(["json", "json", "plain"])
-            ra = sb.run(["report", "all.cgt", "--format", fmt])
-            rb = sb.run(["report"] + names + ["--format", fmt])
+        styles = []
+        for _c in chunks:
+            eol = rng.choice(["\n", "\n", "\r\n"])
+            trailing = rng.random() < 0.5
+            styles.append(("CRLF" if eol == "\r\n" else "LF") + ("" if trailing else ",no-final-newline"))
+        fmt = rng.choice(["json", "json", "plain"])
         cnt["cli_pairs"] += 1
         cnt[f"cli_files_{len(chunks)}"] += 1
         for s in styles:
             cnt["cli_style_" + s] += 1
         hashes.add(sha([base, chunks])[:16])
-        case = {"op": "cli-split", "txs": base, "chunks": chunks, "styles": styles, "fmt": fmt, "ordered": ordered}
-        if ra["timeout"] or rb["timeout"]:
-            cnt["cli_timeouts(inconclusive)"] += 1
-            continue
-        if (ra["exit"] == 0) != (rb["exit"] == 0):
-            viols.append({"clause": "cli-accept-reject-differs", "signature": "cli-accept-reject-differs",
-                          "detail": f"whole: exit {ra['exit']} {ra['stderr'][:150]} | split ({styles}): exit {rb['exit']} {rb['stderr'][:150]}",
-                          "case": case})
-            continue
-        if ra["exit"] != 0:
-            continue
-        if fmt == "json":
-            ja, jb = json.loads(ra["stdout"]), json.loads(rb["stdout"])
-            ja.pop("transactions", None)
-            jb.pop("transactions", None)
-            same = ja == jb
-            if not same and not ordered and (lc.nonconsecutive_sells(base) or True):
-                # unordered distribution: per-sell-line legs may regroup (F16); compare merged view
-                same = json_views_close(merged_json_view(ja), merged_json_view(jb))
-                if same:
-                    cnt["cli_f16_regroupings"] += 1
-        else:
-            ta = ra["stdout"].decode().split("# TRANSACTIONS")[0]
-            tb = rb["stdout"].decode().split("# TRANSACTIONS")[0]
-            same = ta == tb
-            if not same and not ordered:
-                same = True  # plain text of regrouped legs is compared through the JSON path only
-                cnt["cli_plain_unordered_not_compared"] += 1
-        if not same:
-            viols.append({"clause": "cli-split-differs", "signature": "cli-split-differs:" + ("ordered" if ordered else "distributed"),
-                          "detail": f"report of {len(chunks)} files ({styles}) differs from report of the concatenation ({fmt})",
-                          "case": case})
-        elif len(samples) < 1 and len(chunks) >= 2:
+        vs_ = exec_cli_split(base, lines, chunks, styles, fmt, ordered, cnt)
+        viols += vs_
+        if not vs_ and len(samples) < 1 and len(chunks) >= 2:
             samples.append({"files": len(chunks), "styles": styles, "format": fmt, "ordered_chunks": ordered,
                             "result": "identical figures"})
     return {"evaluations": cnt["cli_pairs"] * 2, "nontrivial_hashes": hashes, "counters": cnt,
@@ -422,8 +434,12 @@ def run_shard(desc):
 
 
 def replay(case):
+    if case.get("op") == "cli-split":
+        lines = case.get("lines") or render_dsl(case["txs"]).splitlines()
+        vs = exec_cli_split(case["txs"], lines, case["chunks"], case["styles"], case["fmt"], case["ordered"], Counter())
+        return vs, {"files": len(case["chunks"]), "styles": case["styles"]}
     if case.get("op") != "pair":
-        return [], {"note": "CLI split cases: see case body"}
+        return [], {"note": "see case body"}
     oa, ob = probe().run([lc.calc_case(case["txs"]), lc.calc_case(case["variant"])])
     vs = compare_variant(case["txs"], case["variant"], oa, ob, Counter(), case.get("vclass", "replay"))
     return vs, {"base": oa, "variant": ob}
